@@ -23,7 +23,8 @@ type View struct {
 	Vals []any      `json:"vals"`
 	Logs [][]string `json:"logs"`
 	Errs [][]string `json:"errs"`
-	Meta []string   `json:"meta,omitempty"` // user metadata keys on data batches
+	Meta  []string `json:"meta,omitempty"`  // user metadata keys on data batches
+	Metas []int    `json:"metas,omitempty"` // per data batch: 1 when it carries the user.key annotation
 	Note string     `json:"note,omitempty"`
 }
 
@@ -38,7 +39,7 @@ type Input struct {
 // RunStream runs method with the script over a pipe: writes the request and all
 // inputs, closes, and decodes every response stream.
 func RunStream(srv *vgirpc.Server, method, script string, inSchema *arrow.Schema, inputs []Input) View {
-	v := View{Vals: []any{}, Logs: [][]string{}, Errs: [][]string{}}
+	v := View{Vals: []any{}, Logs: [][]string{}, Errs: [][]string{}, Metas: []int{}}
 	sr, cw := io.Pipe()
 	cr, sw := io.Pipe()
 	done := make(chan struct{})
@@ -106,8 +107,10 @@ func RunStream(srv *vgirpc.Server, method, script string, inSchema *arrow.Schema
 				v.Errs = append(v.Errs, []string{b.EType, b.EKind})
 			case "data":
 				v.Vals = append(v.Vals, b.Val)
-				for k := range b.Meta {
-					v.Meta = append(v.Meta, k)
+				if _, has := b.Meta["user.key"]; has {
+					v.Metas = append(v.Metas, 1)
+				} else {
+					v.Metas = append(v.Metas, 0)
 				}
 			}
 		}
